@@ -5,8 +5,11 @@ set -e
 cd "$(dirname "$0")"
 /venv/bin/python harness/extract.py
 cd lean
-lake build XlVerif xldriver
+for i in $(seq -w 1 20); do
+  lake build "XlVerif.Drv.C$i" "drv_c$i" || echo "setup: driver of C$i does not build (its check will report it)"
+done
 for f in XlVerif/Props/C*.lean; do
   m=$(basename "$f" .lean)
   lake build "XlVerif.Props.$m" || echo "setup: proofs of $m do not build (the check will report it)"
 done
+lake build xldriver || true
